@@ -1,6 +1,7 @@
 //! jaqmon: a thin driver exposing the real jaq crates (built from /repo's working tree) to
 //! the monitors in /verif. It contains no model of jaq. JSON lines in, JSON lines out.
 mod alloc;
+mod c05;
 mod codec;
 mod eval;
 mod extra;
@@ -92,6 +93,7 @@ fn handle(req: &Value) -> Value {
         "fmt" => guarded(|| extra::fmt(req)),
         "mods" => guarded(|| extra::mods(req)),
         "load_report" => guarded(|| extra::load_report(req)),
+        "evalc" => c05::evalc(req),
         "ping" => json!({"pong": true}),
         other => json!({"harness_error": format!("unknown op {other}")}),
     }
